@@ -8,6 +8,8 @@ import (
 	"context"
 	"encoding/json"
 	"fmt"
+	"io"
+	"log"
 	"net/http"
 	"net/http/httptest"
 	"os"
@@ -301,6 +303,7 @@ func loadCorpus(dir string) [][]byte {
 }
 
 func main() {
+	log.SetOutput(io.Discard) // the index builder and the shard loader log every shard
 	f := gen.ParseFlags()
 	w := gen.NewWriter(f.Out)
 	defer w.Close()
